@@ -10,7 +10,8 @@ deco4004.c + an encoder from code4004.c; both opcode tables regenerated from the
 * `C15_areas` – for *any* CPU callback: the code areas the tracing loop ends with are sorted, pairwise separated and cover exactly
   the extents of the traced instructions; `C15_areas_disjoint` – code and data areas share no address iff no traced
   instruction touches a vector cell; `C15_areas_inside` – inside the image for callbacks that only report bytes they fetched.
-Not proved (tested against the real tools every run): text parsing and label resolution by asl, the 6800 encoder side.
+Not proved here (tested against the real tools every run): text parsing and label resolution by asl for the 4004.
+The 6800/6802 theorems (round trip on the printed text, length, `Honest` under `Whole`, table facts) are in `Props/C15_6800.lean`.
 
 Full-strength statement that does NOT hold on the current tree (kept as comment):
   theorem C15_4004_roundtrip_full : decode a op d = some dec → a + 2 < 4096 → encode 1 a dec.memo dec.args = some (imageBytes dec op d)
